@@ -11,7 +11,7 @@ def run_harness(h, prop, tier):
     name = h["harness"]
     tdir = os.path.join(BUILD, "kani-target")
     os.makedirs(tdir, exist_ok=True)
-    cmd = ["cargo", "kani", "-Z", "stubbing", "--harness", name, "--target-dir", tdir, "--exact"] + list(h.get("flags", []))
+    cmd = ["cargo", "kani", "-Z", "stubbing", "--harness", name, "--target-dir", tdir] + list(h.get("flags", []))
     if h.get("solver"):
         cmd += ["--solver", h["solver"]]
     env = dict(os.environ, CARGO_NET_OFFLINE="true")
